@@ -368,7 +368,10 @@ T3small == {I64, Str, NullT, RA, RB, RAs, Arr(I64), SetT(I64), Arr(Str), Uni(<<I
 T3large == T3small \cup {Rec(<<>>), Rec(<<Fld("a", I64), Fld("b", Str)>>), Rec(<<Fld("b", Str), Fld("a", I64)>>), Rec(<<Fld("a", RA)>>),
                          Rec(<<Fld("a", Arr(I64))>>), Rec(<<Fld("a", SetT(I64))>>), Rec(<<Fld("a", Arr(Str))>>),
                          Arr(RA), Arr(RB), SetT(Str), MapT(Str, I64), Uni(<<I64, RA>>), Uni(<<Str, RB>>),
-                         Named("R", RA), Arr(NullT), Rec(<<Fld("a", NullT)>>), F64, Rec(<<Fld("a", Uni(<<I64, Str>>))>>)}
+                         Named("R", RA), Arr(NullT), Rec(<<Fld("a", NullT)>>), F64, Rec(<<Fld("a", Uni(<<I64, Str>>))>>),
+                         \* depth 3
+                         Rec(<<Fld("a", Arr(RA))>>), Rec(<<Fld("a", Arr(RB))>>), Rec(<<Fld("a", Uni(<<I64, RA>>))>>),
+                         Arr(Arr(I64)), Arr(SetT(I64)), Arr(Arr(Str))}
 T3 == IF TripleLevel >= 2 THEN T3large ELSE T3small
 
 \* A case is the sequence of distinct input types in order of first appearance.
@@ -438,10 +441,20 @@ MultiRecUnion(t) ==
     [] t.k = "map"   -> MultiRecUnion(t.kt) \/ MultiRecUnion(t.vt)
     [] t.k = "union" -> \/ Cardinality({i \in 1..Len(t.ts) : IsRecT(t.ts[i])}) >= 2
                         \/ \E i \in 1..Len(t.ts) : MultiRecUnion(t.ts[i])
+\* names are dropped when named records are merged: compare modulo names
+RECURSIVE StripNames(_)
+StripNames(t) ==
+  CASE t.k = "prim"  -> t
+    [] t.k = "named" -> StripNames(t.t)
+    [] t.k = "rec"   -> Rec([i \in 1..Len(t.fs) |-> Fld(t.fs[i].n, StripNames(t.fs[i].t))])
+    [] t.k = "arr"   -> Arr(StripNames(t.e))
+    [] t.k = "set"   -> SetT(StripNames(t.e))
+    [] t.k = "map"   -> MapT(StripNames(t.kt), StripNames(t.vt))
+    [] t.k = "union" -> Uni([i \in 1..Len(t.ts) |-> StripNames(t.ts[i])])
 Idempotent == ~Part2 \/ \A t \in Terms : LET m == MergeR(t, t) IN
                  IF m.x # {} THEN ~WellFormed(m.t)
                  ELSE /\ Embeds(t, m.t)
-                      /\ MultiRecUnion(t) \/ NormFields(Under(m.t)) = NormFields(Under(t))
+                      /\ MultiRecUnion(t) \/ NormFields(StripNames(m.t)) = NormFields(StripNames(t))
 
 ASSUME Commutes /\ Idempotent
 
